@@ -192,7 +192,7 @@ def _selftests():
 
 def run(ctx):
     from harness import growth
-    growth.mk_steps(ctx)
+    growth.safe(ctx, growth.mk_steps)
     ctx.rule = ("G: every recursion tree of the wrapper for n<=7 (quick) x t2 in 2..4 with detector answers in "
                 "0..len-2 or None, replayed with a synthetic detector; T: 5 bundled detectors x curves (5<=n<=16) x "
                 "t1 in {0, 1e-3, 0.05, harvested tie} x t2 in minimum..6 with K/C tables over all slices.  "
